@@ -141,7 +141,7 @@ func (x *Exec) dischargeSeed(q *Query, tier string, seed int) *Result {
 		sa = []string{fmt.Sprintf("smt.random_seed=%d", seed), fmt.Sprintf("sat.random_seed=%d", seed)}
 	}
 	res := &Result{Q: q}
-	to := 20 * time.Second
+	to := 30 * time.Second
 	if tier == "thorough" {
 		to = 60 * time.Second
 	}
